@@ -139,8 +139,8 @@ Lemma eq_val a b : dunder_eq st a (OVal b) = Ok (a =? b).  Proof. reflexivity. Q
 Lemma ne_val a b : dunder_ne st a (OVal b) = Ok (negb (a =? b)).  Proof. reflexivity. Qed.
 Lemma lt_val a b : dunder_lt st a (OVal b) = Ok (a <? b).  Proof. reflexivity. Qed.
 Lemma le_val a b : dunder_le st a (OVal b) = Ok (a <=? b). Proof. reflexivity. Qed.
-Lemma gt_val a b : dunder_gt st a (OVal b) = Ok (a >? b).  Proof. reflexivity. Qed.
-Lemma ge_val a b : dunder_ge st a (OVal b) = Ok (a >=? b). Proof. reflexivity. Qed.
+Lemma gt_val a b : dunder_gt st a (OVal b) = Ok (b <? a).  Proof. reflexivity. Qed.
+Lemma ge_val a b : dunder_ge st a (OVal b) = Ok (b <=? a). Proof. reflexivity. Qed.
 
 (* min: a least element, and the first such *)
 Lemma fold_min_spec (l : list Z) (x : Z) :
